@@ -19,7 +19,7 @@ def period_in_default_unit(ast):
     # one sample, as a duration in the default unit of the specification
     # scaled to the base unit before it becomes a fraction, like the interpreter does: a period
     # given as the float 0.1 (s) is 100000000 ns, not the binary fraction nearest to 0.1
-    return Fraction(ast.sampling_period * ast.U[ast.sampling_period_unit]) / ast.U[ast.unit]
+    return Fraction(str(ast.sampling_period)) * Fraction(ast.U[ast.sampling_period_unit]) / ast.U[ast.unit]
 
 
 class StlHorizon(LtlHorizon, StlAstVisitor):
